@@ -239,8 +239,21 @@ def fragments(repo: Repo, gen: str) -> list[Fragment]:
         srt, uns = branches(parse_body(cap.body or ""))
         if [norm(x) for x in srt] != [norm(x) for x in uns]:
             raise Unsupported(f"{gen}: for a single field the sorted and the unsorted branch differ", f.node)
+        # the emitted code is a function of (name kind, compare, init[, is_collection]) only: other Field attributes must not matter
+        extra_dep = None
+        for attr, vals in (("hash", (False, True)), ("repr", (False,)), ("kw_only", (True,))):
+            for v in vals:
+                f2 = Fld(d["name"], d.get("compare", True), d.get("init", True), **{attr: v})
+                cap2 = run_generator(repo, gen, [(f2, TypeInfo(d.get("is_collection", False)))])
+                if (cap2.body or "") != (cap.body or ""):
+                    extra_dep = f"{attr}={v!r}"
+                    break
+            if extra_dep:
+                break
         text = "\n".join("    " + ast.unparse(x).replace("\n", "\n    ") for x in srt) + "\n"
-        out.append(Fragment(gen, GENERATORS[gen], d, text, srt, f))
+        fr = Fragment(gen, GENERATORS[gen], d, text, srt, f)
+        fr.extra_dep = extra_dep  # type: ignore[attr-defined]
+        out.append(fr)
     _FRAG_CACHE[key] = out
     return out
 
